@@ -172,7 +172,14 @@ func ruleS1(w *World, r *Report) {
 					if c := callOfValue(v); c != nil && staticCalleeName(c) == "copyColl" {
 						fresh = true
 					}
+					// the copy written out in place: a map made by this very call
+					if mm, isMM := unwrap(v).(*ssa.MakeMap); isMM && mm.Parent() == fn {
+						fresh = true
+					}
 				}
+			}
+			if mm, isMM := unwrap(st.Val).(*ssa.MakeMap); isMM && mm.Parent() == fn {
+				fresh = true
 			}
 			r.Check(fresh, rule, "(*Store).Snapshot › own copy of the collection map", w.InstrPos(in), "coll: copy of the original's map", "the snapshot shares the original's collection map object")
 		}
